@@ -482,7 +482,7 @@ def check_no_early_exit(idx: Index, rep: Report) -> None:
         f = idx.try_func(OPS, name)
         if f is None:
             continue
-        fn = f.raw_node
+        fn = f.as_raw().node
         for w in walk_local(fn):
             if not isinstance(w, (ast.For, ast.While)):
                 continue
